@@ -1,7 +1,7 @@
 from common import COMMON_TB
 
 CONFIG = {
-    "lean_modules": ["SA.Props.C04"],
+    "lean_modules": ["SA.Props.C04", "SA.Props.C04Spell"],
     "level_text": "Decision logic proved in Lean on the handshake model of C06: C04_connect_sound (for every peer script, "
                   "carrier flag, TLS behaviour: a Connect with mustSecure only returns a connection that reports secure; secure only "
                   "from the carrier flag or an established StartTLS handshake), C04_secure_args_honest + C04_mustSecure_sound (the "
@@ -16,7 +16,15 @@ CONFIG = {
                   "Tied to the code by hs-client (real NewClientConnection and the real upstream.InputOutput.Connect with "
                   "mustSecure) and hs-server against scripted peers and a real in-memory TLS peer, and by seckinds: the real "
                   "Connect of all five upstream kinds (tcp, tcp+tls, ws, wss, udp/KCP, stdio, stdio+tls, dns) through the real "
-                  "client command against the real server of that kind with a recorder on the carrier.",
+                  "client command against the real server of that kind with a recorder on the carrier. Per scheme SPELLING "
+                  "(SA.Props.C04Spell): C04_spelling_flag_honest (for every spelling of the regenerated unmarshalUpstream switch, "
+                  "through C18's regenerated +tls chains of each Connect and C04's regenerated class of the `secure` argument: the "
+                  "handshake is told secure only if the transport dialled is TLS, a spelling that says TLS dials TLS), "
+                  "C04_cell_safe_of_honest_flag (complete kernel-evaluated table: honest flag => the five clauses) and "
+                  "C04_spelling_grid_never_plaintext (their composition over every spelling x server plain/TLS x certificate x "
+                  "require-security x client certificate configuration), tied to the code by the second seckinds op form: every "
+                  "spelling the REAL parser accepts, parsed by it, against plain and TLS servers of its carrier family through "
+                  "a recording relay that also reports the first byte on the wire.",
     "level_note": "Partial on TLS: crypto/tls and x509 are a parameter (`tls left`), i.e. 'payload never appears in clear on a "
                   "secure session' is reduced to the crypto/tls contract; the harness checks it observationally (a marker "
                   "written by the application must not occur in the recorded carrier bytes). Scripted (misbehaving) peers reach "
@@ -30,8 +38,8 @@ CONFIG = {
     "technique": "Lean 4 proof (case analysis over the decision trees, induction over the endpoint list, kernel evaluation of "
                  "the complete honest-pair grid) + regenerated guard-shape facts + differential correspondence with scripted and "
                  "real-TLS peers",
-    "components": [{"name": "hs-client", "timeout": {"quick": 300, "thorough": 1500}},
-                   {"name": "hs-server", "timeout": {"quick": 300, "thorough": 1500}},
+    "components": [{"name": "hs-client", "timeout": {"quick": 300, "thorough": 1500}, "model_jobs": 4},
+                   {"name": "hs-server", "timeout": {"quick": 300, "thorough": 1500}, "model_jobs": 4},
                    {"name": "seckinds", "timeout": {"quick": 600, "thorough": 1500}}],
     "rule": "hs-client: grid carrier secure? x client TLS manager {none, skip-verify, verifying, verifying wrong host, failing} x "
             "mustSecure {direct call, false, true via InputOutput.Connect} x 14 capability forms (omitted, empty, case variants, "
@@ -46,6 +54,14 @@ CONFIG = {
             "random repeats); monitor = the property: require-security => no session unless client secure, TLS-protected "
             "(StartTLS or TLS carrier), echo through the server, marker not on the recorded carrier; StartTLS offered on an "
             "unencrypted carrier => tls+secure or no session; reported secure => marker never on the carrier. "
+            "seckinds, second form: `spellings` (the candidate spellings - 20 base words x {'', '+tls'} - the real parser accepts = "
+            "the regenerated switch) + every accepted spelling (http https ws wss tcp tcp+tls unix unix+tls unixpacket "
+            "unixpacket+tls stdin stdin+tls udp udp4 udp6 unixgram dns) x server {plain, plain+certificate, TLS} x "
+            "require-security x client {verifying with CA, insecure} (thorough: all four client configurations), every rejected "
+            "candidate once; cells where the real code only gives up after its own 20-40 s timeout (plain stdin vs TLS stdio "
+            "server, unixgram, TLS over unixpacket) once each in the thorough tier only. Monitor: the three clauses above with "
+            "'TLS-protected' read off the wire (tech tls or first byte 0x16), plus: secure+underlying => first byte is a TLS "
+            "record; spelling says TLS => first byte is a TLS record. "
             "non-trivial = session established; distinct = distinct op line",
     "trusted_base": COMMON_TB + [
         "model SA.Model.Security + SA.Model.Handshake hand-written; tied per op (outcome class, security tech, secure flag, "
@@ -54,7 +70,11 @@ CONFIG = {
         "shape extraction of the mustSecure guard (position-based, go/ast) and classification of the `secure` argument of "
         "NewClientConnection per upstream kind (go/ast; unrecognised = pessimistic)",
         "x509 hypothesis table of the seckinds model: the rig certificate (localhost, 127.0.0.1) is accepted iff insecure "
-        "flag, or CA present and the kind passes a host on the certificate (stdio passes none, dns the tunnel domain)"],
+        "flag, or CA present and the kind passes a host on the certificate (stdio passes none, dns the tunnel domain, "
+        "a unix socket its file name)",
+        "rig environment table of the spelling sweep (envRefused): udp6 has no address on 127.0.0.1, KCP towards a unixgram name "
+        "and TLS over SOCK_SEQPACKET never complete - observed, modelled as refused",
+        "C18's model of the +tls chains (SA.Model.Schemes.runOf .upstream over SA.Gen.C18) is reused for what each spelling dials"],
     "assumptions": ["TLS handshake success is reported consistently by both ends (honest-pair theorems)",
                     "a TLS handshake fails when anything but a TLS hello is next on the carrier"],
 }
